@@ -115,7 +115,7 @@ def _ids(xml):
 MUTATIONS = ['none', 'dup-loc-name', 'loc-named-as-var', 'dup-global', 'dup-local', 'dup-template', 'dup-func', 'var-named-as-template',
              'bad-src', 'bad-dst', 'bad-init', 'no-init', 'init-on-branchpoint', 'foreign-target', 'dup-id', 'dup-bp-id', 'inst-argcount',
              'inst-unknown-template', 'dup-inst', 'inst-named-as-template', 'system-unknown', 'system-dup', 'system-variable',
-             'dup-param', 'bad-param', 'dup-select', 'two-inits', 'token-fault', 'token-fault', 'token-fault', 'token-fault']
+             'dup-param', 'bad-param', 'dup-select', 'two-inits', 'loc-named-as-branchpoint', 'dup-bp-name', 'bp-named-as-variable', 'token-fault', 'token-fault', 'token-fault', 'token-fault']
 
 
 def mutate(m, mut, rnd):
@@ -183,6 +183,17 @@ def mutate(m, mut, rnd):
         b = pick(t.bps)
         a = pick(t.locs)
         post = lambda x: x.replace('<branchpoint id="%s"' % b[0], '<branchpoint id="%s"' % a.id, 1)
+    elif mut == 'loc-named-as-branchpoint' and t and t.bps:
+        pick(t.locs).name = pick(t.bps)[1]
+    elif mut == 'dup-bp-name' and t and len(t.bps) >= 2:
+        t.bps[1] = (t.bps[1][0], t.bps[0][1])          # visible in the XTA rendering (XML derives the name from the id)
+        post = lambda x: x.replace('<branchpoint id="%s"' % t.bps[1][0], '<branchpoint id="%s"' % t.bps[0][0], 1)
+    elif mut == 'bp-named-as-variable' and t and t.bps:
+        names = [v[0] for d in t.decls for v in d.vars]
+        if names:
+            t.bps[0] = (t.bps[0][0], pick(names))
+        else:
+            applied = 'none'
     elif mut == 'inst-argcount' and m.insts:
         i = pick(m.insts)
         i[3] = list(i[3])[:-1] if (i[3] and rnd.random() < 0.5) else list(i[3]) + [('int', 1)]
@@ -227,7 +238,7 @@ def mutate(m, mut, rnd):
             applied = 'none'
         xml = x2
     xta = None
-    if all(l.name for u in m.templates for l in u.locs) and post is None:
+    if all(l.name for u in m.templates for l in u.locs) and (post is None or mut == 'dup-bp-name'):
         try:
             xta = m.xta()
         except Exception:
